@@ -54,7 +54,12 @@ Definition ovf (em z : Z) : xz :=
 Inductive conv_res := CvOk (x : xz) | CvOverflowError | CvValueError.
 
 Definition conv (f : fmt) (v : Z) : conv_res :=
-  if (0 <? strlim f) && (10 ^ strlim f <=? Z.abs v) then CvValueError
+  (* more than strlim decimal digits; 10^s <= |v| implies 3*s <= log2 |v|, tested first (with
+     `if`, which is lazy also under vm_compute) so that the power is only computed for huge v *)
+  if (if 0 <? strlim f then
+        if 3 * strlim f <=? Z.log2 (Z.abs v) then 10 ^ strlim f <=? Z.abs v else false
+      else false)
+  then CvValueError
   else if via f =? 0 then CvOk (ovf (emax f) (rne (prec f) v))
   else match ovf (via_emax f) (rne (via f) v) with
        | Fin d => CvOk (ovf (emax f) (rne (prec f) d))
@@ -64,18 +69,24 @@ Definition conv (f : fmt) (v : Z) : conv_res :=
 (* float subtraction of two integer-valued floats: the exact difference, rounded *)
 Definition fsub (f : fmt) (a b : Z) : xz := ovf (emax f) (rne (prec f) (a - b)).
 
-(* casting.floor_exact *)
-Definition floor_exact (f : fmt) (v : Z) : cres xz :=
-  match conv f v with
-  | CvValueError => CErr EValue
-  | CvOverflowError => COk (if 0 <? v then PInf else NInf)         (* sign * np.inf *)
-  | CvOk (Fin fv) =>
+(* casting.floor_exact, after `fval = flt_type(val)` succeeded with value x *)
+Definition floor_exact_tail (f : fmt) (v : Z) (x : xz) : cres xz :=
+  match x with
+  | Fin fv =>
       if 0 <=? v - fv then COk (Fin fv)                            (* diff >= 0 *)
       else
         let gap := 2 ^ (floor_log2 v - (prec f - 1)) in           (* nmant = prec - 1 *)
         if gap <=? 1 then CErr EAssert                             (* assert biggest_gap > 1 *)
         else COk (fsub f fv gap)
-  | CvOk i => COk i                                                (* not finite: return fval *)
+  | i => COk i                                                     (* not finite: return fval *)
+  end.
+
+(* casting.floor_exact *)
+Definition floor_exact (f : fmt) (v : Z) : cres xz :=
+  match conv f v with
+  | CvValueError => CErr EValue
+  | CvOverflowError => COk (if 0 <? v then PInf else NInf)         (* sign * np.inf *)
+  | CvOk x => floor_exact_tail f v x
   end.
 
 Definition xneg (x : xz) : xz :=
@@ -201,7 +212,9 @@ Definition iu_decide (k : wkind) (trunc : bool) (sc : fmt) (tin tout : ity) (mn 
 
 (* header capabilities (has_data_slope, has_data_intercept); `direct` = the image class
    calls array_to_file itself without an array writer (MGH) *)
-Record caps := mkCaps { has_slope : bool; has_inter : bool; direct : bool }.
+Record caps := mkCaps { has_slope : bool; has_inter : bool; direct : bool;
+                        slope_f32 : bool   (* get_slope_inter returns the slope as a NumPy float32
+                                              (SPM) rather than a Python float (NIfTI) *) }.
 
 (* ---- C02_refusal: what a format may store.  `need_slope`/`need_inter` say whether the
    scaling chosen by the writer differs from (1, 0); the header's set_slope_inter raises
